@@ -202,15 +202,14 @@ class Simplifier(walkers.dag.DagWalker):
                             or variable.variable() not in vars
                         ):
                             variable, value = value, variable
+                        # occurs check: the variable must not appear in the value it is replaced with
                         value_free_vars = (
-                            self.environment.free_vars_oracle.get_free_variables(
-                                args[0]
-                            )
+                            self.environment.free_vars_oracle.get_free_variables(value)
                         )
                         if (
                             variable.is_variable_exp()
                             and variable.variable() in vars
-                            and variable not in value_free_vars
+                            and variable.variable() not in value_free_vars
                         ):
                             check_equality_simplification = True
                             new_arg = self.manager.And(
@@ -218,6 +217,10 @@ class Simplifier(walkers.dag.DagWalker):
                             )
                             new_arg = new_arg.substitute({variable: value})
                             vars.remove(variable.variable())
+                            # the substitution can enable further simplifications
+                            new_arg = Simplifier(self.environment, self.problem).simplify(
+                                new_arg
+                            )
                             break
         if vars:
             return self.manager.Exists(new_arg, *vars)
@@ -403,7 +406,10 @@ class Simplifier(walkers.dag.DagWalker):
             if right.constant_value() < 0:
                 value = -right.constant_value()
                 fnode_constant_values = self._number_to_fnode(value)
-                return self.manager.Plus(left, fnode_constant_values)
+                # go through walk_plus, so that the new constant is merged with the ones
+                # already in `left` (otherwise a second simplification would still change it)
+                plus_args = [left, fnode_constant_values]
+                return self.walk_plus(self.manager.Plus(plus_args), plus_args)
             else:
                 return self.manager.Minus(left, right)
         else:
